@@ -64,7 +64,10 @@ class C14(Prop):
                 # itself could not be read (then no helper attribute is known yet and only `derive_ex` goes)
                 full = strip_attrs(inp, owned_names(r.meta['traits']) | {'derive_ex'})
                 only_dx = strip_attrs(inp, {'derive_ex'})
-                if got not in (full, only_dx):
+                # (an unreadable request shows as `unsupported trait` or as a parse error of the argument list)
+                import re
+                unreadable = any(p[0] == 'ERR' and re.match(r'unsupported trait|expected |unexpected ', p[1]) for p in r.actual)
+                if got != full and not (unreadable and got == only_dx):
                     failures.append(dict(**{'class': 'item-on-error-keeps-attributes', 'mode': 'item'}, input=r.input_text(),
                                          expected=[full, only_dx], observed=got, strict=True))
                     continue
